@@ -216,16 +216,19 @@ theorem hp_step (e : Expr) (c : ICtx) (D : Env) : HP (step cfg ev e c D) := by
     split <;> hp_basic
   | dot =>
     simp only [step]
-    apply HP.bnd (HP.flag _ rfl); intro _
-    split <;> hp_basic
+    split
+    · exact HP.ret _
+    · exact HP.thr _
   | posE =>
     simp only [step]
-    apply HP.bnd (HP.flag _ rfl); intro _
-    split <;> hp_basic
+    split
+    · exact HP.ret _
+    · exact HP.thr _
   | lastE =>
     simp only [step]
-    apply HP.bnd (HP.flag _ rfl); intro _
-    split <;> hp_basic
+    split
+    · exact HP.ret _
+    · exact HP.thr _
   | add a b => exact hp_evArith ev hev _ a b c D
   | sub a b => exact hp_evArith ev hev _ a b c D
   | mul a b => exact hp_evArith ev hev _ a b c D
